@@ -5,8 +5,8 @@
    Pairs outside the shape the generic theorem covers (conditional fields, variable length strings, repeated records) are listed in
    GenObligations.v and in the evidence; they are tied by the correspondence and judged by the oracle only. *)
 From Coq Require Import ZArith List Bool.
-From N2kV Require Import Model.SoftFloat Model.NumDefs Model.MsgIR Model.MsgExec Spec.NumSpec Spec.MsgSpec Proofs.MsgProofs
-                         Gen.GenMessages Gen.GenObligations.
+From N2kV Require Import Model.SoftFloat Model.NumDefs Model.MsgIR Model.MsgExec Model.MsgAppendDefs Spec.NumSpec Spec.MsgSpec Proofs.MsgProofs
+                         Spec.MsgAppendSpec Proofs.MsgAppendProofs Gen.GenMessages Gen.GenObligations.
 Import ListNotations.
 Local Open Scope Z_scope.
 
@@ -14,6 +14,8 @@ Theorem C05_roundtrip_sound : roundtrip_sound_stmt.  Proof. exact roundtrip_soun
 Print Assumptions C05_roundtrip_sound.
 Theorem C05_guard_sound : guard_sound_stmt.  Proof. exact guard_sound. Qed.
 Print Assumptions C05_guard_sound.
+Theorem C05_guard_weak_sound : guard_weak_sound_stmt.  Proof. exact guard_weak_sound. Qed.
+Print Assumptions C05_guard_weak_sound.
 Theorem C05_locality : locality_stmt.  Proof. exact locality. Qed.
 Print Assumptions C05_locality.
 Theorem C05_scaled_rt_spec : scaled_rt_spec_stmt.  Proof. exact scaled_rt_spec. Qed.
@@ -46,6 +48,37 @@ Proof.
   exact (guard_sound p n C).
 Qed.
 Print Assumptions C05_all_parsers_refuse_other_pgns.
+
+(* the parsers that preset outputs before the PGN test (ParseN2kPGN59904 and its alias) return false for every other PGN *)
+Theorem C05_preset_parsers_refuse_other_pgns :
+  forall p n, In (p, n) weak_guarded_parsers -> forall args msg, m_pgn msg <> n -> r_ret (exec_parse p args msg) = false.
+Proof.
+  intros p n Hin. assert (C := weak_guarded_parsers_checked). rewrite forallb_forall in C. specialize (C _ Hin). cbn [fst snd] in C.
+  exact (guard_weak_sound p n C).
+Qed.
+Print Assumptions C05_preset_parsers_refuse_other_pgns.
+
+(* repeated records, PGN 129540 (GNSS satellites in view): SetN2kPGN129540, then n <= 18 appends (hand-written model of
+   AppendN2kPGN129540, tied to the C++ by the "A" cases of the correspondence), then the generated parsers: every append is accepted, the
+   header parser reports n, the per-record parser returns record i for i < n (PRN and usage status exactly, scaled fields as the decoding
+   of the stored code - see C05_scaled_rt_spec), refuses every index n <= i < 256, and a 19th append is refused and changes nothing.
+   The record codecs of PGN 129285 and 130074 (Model/MsgAppendDefs.v) have no parser in the library to round-trip with: they are
+   covered by the correspondence and by the oracle's own decoder only. *)
+Theorem C05_satellites_roundtrip : satellites_roundtrip_stmt.  Proof. exact satellites_roundtrip. Qed.
+Print Assumptions C05_satellites_roundtrip.
+
+(* not vacuous: two records, run *)
+Example C05_satellites_nonvacuous :
+  let all := [VI 7; VI 1; VI 5; VD 4607182418800017408; VD 4611686018427387904; VD 4630826316843712512; VD 0; VI 2;
+                           VI 31; VD na_double_bits; VD 0; VD 0; VD 4607182418800017408; VI 15] in
+  match exec_set s_SetN2kPGN129540 (hdr_of all) with
+  | Some m0 => let m := snd (appends m0 all 0 2) in
+               (fst (appends m0 all 0 2), m_len m, out_of (sat_parse 1 m []) 0, out_of (sat_parse 1 m []) 1, r_ret (sat_parse 2 m [])) =
+               ([true; true], 27, Some (VI 31), Some (VD na_double_bits), false)
+  | None => False
+  end.
+Proof. vm_compute. reflexivity. Qed.
+Print Assumptions C05_satellites_nonvacuous.
 
 (* ---- the check is not vacuous: it accepts a matching pair and rejects each kind of mismatch the property is about *)
 Definition p01 : Z := 4576918229304087675.   (* 0.01 *)
